@@ -52,7 +52,7 @@ theorem idleWorker_some (ws : List Worker) (i : Nat) (h : idleWorker ws = some i
 
 /-- conservation invariant -/
 def Cons (s : St) : Prop :=
-  s.received = s.forwarded + s.dropped ∧ s.forwarded = s.processed + s.buf + busyCount s.workers
+  s.received = s.forwarded + s.dropped ∧ s.forwarded = s.processed + s.rejected + s.buf + busyCount s.workers
 
 theorem cons_init (cap n : Nat) : Cons (init cap n) := by
   unfold Cons init busyCount
@@ -112,6 +112,14 @@ theorem cons_step (s : St) (a : Act) (h : Cons s) : Cons (step s a) := by
       simp at this
       refine ⟨by simp only; omega, by simp only; omega⟩
     · exact ⟨h1, h2⟩
+  | bad i =>
+    simp only [step]
+    split
+    · rename_i hw
+      have := busyCount_set s.workers i .busy .idle hw
+      simp at this
+      refine ⟨by simp only; omega, by simp only; omega⟩
+    · exact ⟨h1, h2⟩
 
 theorem cons_run (s : St) (acts : List Act) (h : Cons s) : Cons (run s acts) := by
   unfold run
@@ -131,6 +139,7 @@ theorem cancelled_step (s : St) (a : Act) (h : s.cancelled = true) : (step s a).
   | take i => simp only [step]; split <;> (try split) <;> exact h
   | exit i => simp only [step]; split <;> (try split) <;> exact h
   | finish i => simp only [step]; split <;> exact h
+  | bad i => simp only [step]; split <;> exact h
 
 /-- after cancellation every action either leaves the state unchanged or strictly decreases `mu` -/
 theorem mu_step (s : St) (a : Act) (h : s.cancelled = true) : step s a = s ∨ mu (step s a) < mu s := by
@@ -177,5 +186,93 @@ theorem mu_step (s : St) (a : Act) (h : s.cancelled = true) : step s a = s ∨ m
       simp [wW] at this
       simp only [mu]; omega
     · left; rfl
+  | bad i =>
+    simp only [step]
+    split
+    · rename_i hw
+      right
+      have := wSum_set s.workers i .busy .idle hw
+      simp [wW] at this
+      simp only [mu]; omega
+    · left; rfl
+
+/-! ### workers leave the pool only after a stop request -/
+
+theorem liveCount_set (ws : List Worker) (i : Nat) (w w' : Worker) (h : ws[i]? = some w) :
+    liveCount (ws.set i w') + (if w = .exited then 0 else 1) = liveCount ws + (if w' = .exited then 0 else 1) := by
+  induction ws generalizing i with
+  | nil => simp at h
+  | cons a ws ih =>
+    cases i with
+    | zero =>
+      simp at h; subst h
+      simp only [List.set_cons_zero, liveCount, List.filter_cons]
+      cases a <;> cases w' <;> simp
+    | succ i =>
+      simp at h
+      have := ih i h
+      simp only [List.set_cons_succ, liveCount, List.filter_cons] at this ⊢
+      cases a <;> simp at this ⊢ <;> omega
+
+/-- no action other than a worker's Done branch — which needs the stop request — removes a worker -/
+theorem liveCount_step (s : St) (a : Act) (h : s.cancelled = false) :
+    liveCount (step s a).workers = liveCount s.workers := by
+  cases a with
+  | cancel => rfl
+  | dist input =>
+    simp only [step]
+    split
+    · simp only [h, Bool.false_eq_true, if_false]
+      split
+      · rfl
+      · split
+        · rename_i i hi
+          have hb : s.buf = 0 := by
+            by_cases hb : s.buf = 0
+            · exact hb
+            · simp [hb] at hi
+          simp only [hb, if_true] at hi
+          have := liveCount_set s.workers i .idle .busy (idleWorker_some _ _ hi)
+          simp at this
+          simp only; omega
+        · split <;> rfl
+    · split <;> rfl
+    · rfl
+  | take i =>
+    simp only [step]
+    split
+    · rename_i hw
+      split
+      · have := liveCount_set s.workers i .idle .busy hw
+        simp at this
+        simp only; omega
+      · rfl
+    · rfl
+  | exit i =>
+    simp only [step]
+    split
+    · simp [h]
+    · rfl
+  | finish i =>
+    simp only [step]
+    split
+    · rename_i hw
+      have := liveCount_set s.workers i .busy .idle hw
+      simp at this
+      simp only; omega
+    · rfl
+  | bad i =>
+    simp only [step]
+    split
+    · rename_i hw
+      have := liveCount_set s.workers i .busy .idle hw
+      simp at this
+      simp only; omega
+    · rfl
+
+theorem cancelled_false_of_step (s : St) (a : Act) (h : (step s a).cancelled = false) : s.cancelled = false := by
+  cases hc : s.cancelled with
+  | false => rfl
+  | true => rw [cancelled_step s a hc] at h; cases h
 
 end CJ.Pipeline
